@@ -18,7 +18,7 @@ Definition xterm_entry_ok (k : kname) (mods : N) (a : bool) : bool :=
   match xterm_seq k mods a with
   | None => true
   | Some w =>
-      self_delimiting w
+      negb (bare_prefix w)
       && match lit_lookup prod_key_table w with
          | Some (k', m') => kname_eqb k' k && (m' =? mods)
          | None => false
@@ -29,9 +29,9 @@ Lemma xterm_table_ok :
   forallb (fun k => forallb (fun a => sweep1 8 (fun mods => xterm_entry_ok k mods a)) [true; false]) xterm_keys = true.
 Proof. vm_compute. reflexivity. Qed.
 
-Lemma xterm_key_in k mods a w : xterm_seq k mods a = Some w -> In k xterm_keys /\ mods < 8.
+Lemma xterm_key_in k mods a w : xterm_seq k mods a = Some w -> In k xterm_keys /\ mods < 256.
 Proof.
-  unfold xterm_seq. destruct (8 <=? mods) eqn:Em; [discriminate|]. intros H. split; [|lia].
+  unfold xterm_seq. destruct (256 <=? mods) eqn:Em; [discriminate|]. intros H. split; [|lia].
   unfold xterm_keys.
   destruct k as [ | | | |n|c| | | | | | | | | | ]; cbn [final_byte tilde_code] in H;
     try (destruct a; discriminate); try (cbn; tauto).
@@ -54,17 +54,29 @@ Proof.
       apply in_map_iff. exists (c - 97). split; [f_equal; lia| apply nrange_In; lia].
 Qed.
 
+(* masks 0..7 only: the library's table stops there (known finding C04-key-mask, see
+   xterm_mask8_refuted) *)
 Theorem single_xterm k mods a :
+  mods < 8 ->
   wf decmode_all prod_key_table (RXterm k mods a) = true -> single (RXterm k mods a).
 Proof.
-  cbn [wf]. intros Hwf. destruct (xterm_seq k mods a) as [w|] eqn:E; [|discriminate].
-  destruct (xterm_key_in k mods a w E) as [Hin Hm].
+  cbn [wf]. intros Hm Hwf. destruct (xterm_seq k mods a) as [w|] eqn:E; [|discriminate].
+  destruct (xterm_key_in k mods a w E) as [Hin _].
   pose proof xterm_table_ok as H. rewrite forallb_forall in H. specialize (H k Hin). cbv beta in H.
   rewrite forallb_forall in H. assert (Ha : In a [true; false]) by (destruct a; cbn; tauto).
   specialize (H a Ha). cbv beta in H. pose proof (sweep1_sound 8 _ H mods Hm) as Hs. cbv beta in Hs.
-  unfold xterm_entry_ok in Hs. rewrite E in Hs. apply andb_true_iff in Hs. destruct Hs as [Hsd Hl].
+  unfold xterm_entry_ok in Hs. rewrite E in Hs. apply andb_true_iff in Hs. destruct Hs as [Hbp Hl].
   destruct (lit_lookup prod_key_table w) as [[k' m']|] eqn:El; [|discriminate].
   apply andb_true_iff in Hl. destruct Hl as [Hk Hm']. apply kname_eqb_eq in Hk. apply N.eqb_eq in Hm'. subst k' m'.
-  assert (Hs : single (RLit w)) by (apply single_literal; [rewrite El; discriminate| exact Hsd]).
+  assert (Hs : single (RLit w)) by (apply single_literal; [rewrite El; discriminate| apply negb_true_iff, Hbp]).
   unfold single, prod_denote, denote in *. cbn [print] in *. rewrite E. rewrite El in Hs. exact Hs.
 Qed.
+
+(* known finding C04-key-mask: a cursor key with modifier mask 8 (xterm: meta, parameter 9; kitty:
+   super) is not in the table; the sequence is torn into five key events *)
+Lemma xterm_mask8_refuted :
+  wf decmode_all prod_key_table (RXterm KUp 8 false) = true
+  /\ print (RXterm KUp 8 false) = [27; 91; 49; 59; 57; 65]
+  /\ fst (prod_decode (print (RXterm KUp 8 false)))
+     = [EKey (KChar 91) 2; EKey (KChar 49) 0; EKey (KChar 59) 0; EKey (KChar 57) 0; EKey (KChar 65) 0].
+Proof. split; [reflexivity|]. split; vm_compute; reflexivity. Qed.
